@@ -43,7 +43,7 @@ func variants(b int) int {
 	case "html-template-lexer":
 		return 6
 	case "two-lexers":
-		return 12
+		return 18
 	}
 	return 2
 }
